@@ -1,4 +1,4 @@
 SPECIFICATION Spec
-CONSTANTS Tier = "small" PadFix = TRUE AppendFix = TRUE PoolFix = FALSE
+CONSTANTS Tier = "small" PadFix = TRUE AppendFix = TRUE PoolFix = FALSE FinalizerFix = TRUE
 INVARIANTS NotBad
 CHECK_DEADLOCK FALSE
